@@ -61,13 +61,17 @@ def configs(profile):
     q = st.sampled_from([1, 1, 2, 2, 3, 4, 1000]) \
         if profile.get('limits') == 'ones' else \
         st.sampled_from([1, 2, 3, 4, 1000, 1000])
+    if profile.get('limits') == 'large':
+        lim = st.sampled_from([5, 6, 8, 10, 10])
+        q = st.sampled_from([5, 6, 10, 1000, 1000])
     return st.fixed_dictionaries({
         'multipart_threshold': st.integers(1, profile.get('max_thr', 48)),
         'multipart_chunksize': st.integers(1, profile.get('max_chunk', 24)),
         'io_chunksize': st.integers(1, 12),
         'max_request_concurrency': lim,
-        'max_submission_concurrency': st.integers(1, 3) if profile.get(
-            'limits') != 'ones' else st.sampled_from([1, 1, 2, 3]),
+        'max_submission_concurrency': st.sampled_from([3, 5, 5, 6]) if
+        profile.get('limits') == 'large' else st.integers(1, 3) if
+        profile.get('limits') != 'ones' else st.sampled_from([1, 1, 2, 3]),
         'max_request_queue_size': q,
         'max_submission_queue_size': q,
         'max_io_queue_size': q,
@@ -80,7 +84,10 @@ def configs(profile):
 def adjusters():
     return st.builds(
         lambda lo, span, mp: [lo, lo + span, mp],
-        st.integers(1, 8), st.integers(0, 40), st.integers(3, 10))
+        st.integers(1, 8), st.integers(0, 40),
+        # the scaled stand-in for the 10 000 part limit; the wider range lets
+        # uploads and copies of 10-40 parts through (two-digit part numbers)
+        st.one_of(st.integers(3, 10), st.integers(3, 40)))
 
 
 def sizes(cfg, adj, bias=None):
@@ -98,6 +105,8 @@ def sizes(cfg, adj, bias=None):
     cand = {0, 1, t - 1, t, t + 1}
     for k in range(1, 6):
         cand |= {k * c - 1, k * c, k * c + 1}
+    # 10-12 parts: two-digit part numbers (ordering, formatting)
+    cand |= {9 * c + 1, 10 * c, 11 * c + 1, 12 * c - 1}
     cand = sorted(x for x in cand if 0 <= x <= 400)
     return st.one_of(st.sampled_from(cand), st.integers(0, 6 * c + 3),
                      st.integers(0, 40))
@@ -299,6 +308,11 @@ def ends(profile):
 
 @st.composite
 def e2e_cases(draw, profile):
+    if profile.get('large') and draw(st.integers(0, 7)) == 0:
+        # larger settings: limits of 5-10 (10 = the library default), queue
+        # sizes of 5-10 or the default 1000, 5-10 transfers in flight
+        profile = dict(profile, limits='large', ntransfers=(5, 10),
+                       size_bias='multi', max_thr=6, max_chunk=3)
     cfg = draw(configs(profile))
     adj = draw(adjusters())
     ts = draw(transfers(profile, cfg, adj))
@@ -316,6 +330,10 @@ def e2e_cases(draw, profile):
         'sched': draw(schedules()),
         'hash_salt': draw(st.integers(0, 5)),
     }
+    if profile.get('latency') and draw(st.booleans()):
+        # per-request network latency in virtual time (cycled by call id)
+        case['scripts']['latency'] = draw(st.lists(
+            st.sampled_from([0, 0, 1, 2, 5]), min_size=1, max_size=6))
     lines_mode = draw(st.integers(0, 3)) if profile.get('lines') else 3
     if lines_mode == 0:
         # line-granularity preemption: the n-th executed source line of
